@@ -13,7 +13,7 @@ EXPLANATION = ("The operator assembly code runs with its per-corner cotangents /
                "triangle with symbolic coordinates.")
 BOUNDS = {
     "quick": "two triangles, the closed 3-fan (interior vertex), the closed tetrahedron surface; polylines of 3 vertices; one and two "
-             "tetrahedra; all operator options that stay real-valued (cotan/uniform, inverse, oriented, weights)",
+             "tetrahedra; all operator options that stay real-valued (cotan/uniform, inverse, sqrt, oriented, weights), each with and without an operator assembled earlier on the same mesh",
     "thorough": "adds a 4-triangle strip, a 4-fan, three tetrahedra; symbolic relabelling of the two-triangle mesh",
 }
 OUTSIDE = ("complex-valued operators (gradient as_complex=True, connection Laplacians: complex()/cmath on values) and the identity "
